@@ -202,6 +202,10 @@ pub enum HeadFault {
     /// write a different (lying) argument into the head with pre-order index `idx`, e.g. a
     /// length or element count far larger than what follows
     Lie { idx: usize, arg: u64 },
+    /// write the head with pre-order index `idx` with a RESERVED additional-information value
+    /// (`ai` in 28..=30, or 31 for the major types that have no indefinite form: 0, 1, 6); what
+    /// follows is emitted as if the head had been well-formed
+    Reserved { idx: usize, ai: u8 },
 }
 
 pub struct Encoder {
@@ -257,6 +261,15 @@ impl Encoder {
             HeadFault::Lie { idx: i, arg } if i == idx => {
                 self.applied = arg != n;
                 head(&mut self.out, major, arg);
+                false
+            }
+            HeadFault::Reserved { idx: i, ai } if i == idx => {
+                if (28..=30).contains(&ai) || (ai == 31 && matches!(major, 0 | 1 | 6)) {
+                    self.applied = true;
+                    self.out.push((major << 5) | ai);
+                } else {
+                    head(&mut self.out, major, n);
+                }
                 false
             }
             HeadFault::Indefinite { idx: i } if i == idx && (2..=5).contains(&major) => {
